@@ -15,19 +15,19 @@ import (
 // a "deliver" event moves one segment - or a PRNG-chosen prefix of it - into the
 // reader's buffer. End-of-stream (orderly close, cut, reset) is a separate event.
 type half struct {
-	name      string
-	inflight  []byte
-	segs      []int
-	rbuf      []byte
-	eofSent   bool // writer closed (or cut reached): EOF will follow the queued data
-	eof       bool // reader has been told
-	reset     bool // deliver ECONNRESET instead of EOF
-	wake      chan struct{}
-	pending   bool
-	cutAt     int // >= 0: deliver at most cutAt bytes, then end of stream
-	delivered int
-	written   int
-	dead      bool // writes in this direction fail (peer gone)
+	name       string
+	inflight   []byte
+	segs       []int
+	rbuf       []byte
+	eofSent    bool // writer closed (or cut reached): EOF will follow the queued data
+	eof        bool // reader has been told
+	reset      bool // deliver ECONNRESET instead of EOF
+	wake       chan struct{}
+	pending    bool
+	cutAt      int // >= 0: deliver at most cutAt bytes, then end of stream
+	delivered  int
+	written    int
+	dead       bool // writes in this direction fail (peer gone)
 	readerGone bool // the reading end was closed locally
 }
 
@@ -63,6 +63,9 @@ func (s *Sched) Pipe(name string) (*Conn, *Conn) {
 }
 
 func (c *Conn) Name() string { return c.name + ":" + c.end }
+
+// Peer returns the other end.
+func (c *Conn) Peer() *Conn { return c.peer }
 
 // must be called with c.mu held
 func (c *Conn) schedule(h *half) {
